@@ -358,7 +358,8 @@ class Tree:
         count = 0
         for ind in reversed(self.stack):
             count = count + 1
-            if ind.name == name:
+            # (the root is never closed, also when it was given the same name)
+            if ind.name == name and ind is not self.outmost:
                 break
         else:
             count = 0
